@@ -41,16 +41,23 @@ class SimFS:
         return v
 
     def open(self, path, mode='r', encoding=None, newline=None, **kw):
-        if mode not in ('r', 'w'):
+        """text-mode open with the semantics of a real file system for every mode pjplan could plausibly use
+        (r, w, a, x, r+, w+): a changed mode must show up as wrong file content, not as a harness error"""
+        m = mode.replace('t', '')
+        if 'b' in m or m not in ('r', 'w', 'a', 'x', 'r+', 'w+', 'a+'):
             raise core.HarnessError(f'unexpected open mode {mode}')
-        if mode == 'r' and path not in self.files:
+        if m in ('r', 'r+') and path not in self.files:
             raise FileNotFoundError(errno.ENOENT, 'No such file', path)
+        if m == 'x' and path in self.files:
+            raise FileExistsError(errno.EEXIST, 'File exists', path)
         self.opened += 1
-        raw = SimRawIO(self, path, mode)
-        if mode == 'r':
+        raw = SimRawIO(self, path, m)
+        if m == 'r':
             buf = _io.BufferedReader(raw, buffer_size=self.buffer_size)
-        else:
+        elif m in ('w', 'a', 'x'):
             buf = _io.BufferedWriter(raw, buffer_size=self.buffer_size)
+        else:
+            buf = _io.BufferedRandom(raw, buffer_size=self.buffer_size)
         return _io.TextIOWrapper(buf, encoding=encoding, newline=newline)
 
 
@@ -59,14 +66,32 @@ class SimRawIO(_io.RawIOBase):
         super().__init__()
         self.fs, self.path, self.mode = fs, path, mode
         self.pos = 0
-        if mode == 'w':
+        if mode in ('w', 'w+', 'x') or path not in fs.files:
             fs.files[path] = bytearray()
+        if mode in ('a', 'a+'):
+            self.pos = len(fs.files[path])
 
     def readable(self):
-        return self.mode == 'r'
+        return self.mode in ('r', 'r+', 'w+', 'a+')
 
     def writable(self):
-        return self.mode == 'w'
+        return self.mode != 'r'
+
+    def seekable(self):
+        return True
+
+    def seek(self, off, whence=0):
+        n = len(self.fs.files[self.path])
+        self.pos = max(0, off if whence == 0 else (self.pos + off if whence == 1 else n + off))
+        return self.pos
+
+    def tell(self):
+        return self.pos
+
+    def truncate(self, size=None):
+        size = self.pos if size is None else size
+        del self.fs.files[self.path][size:]
+        return size
 
     def readinto(self, b):
         fs = self.fs
@@ -103,7 +128,10 @@ class SimRawIO(_io.RawIOBase):
             n = min(n, fs.write_fault_at - len(data))
         if n < len(b):
             fs.stats['short_write'] += 1
-        data.extend(bytes(b[:n]))
+        if self.mode in ('a', 'a+'):
+            self.pos = len(data)
+        data[self.pos:self.pos + n] = bytes(b[:n])
+        self.pos += n
         return n
 
     def close(self):
@@ -192,6 +220,8 @@ def make_scenario(streams):
     if sc['mode'] == 'hand':
         sc['hand'] = {'bom': r.random() < 0.5, 'eol': r.choice(['\r\n', '\n']), 'quote_all': r.random() < 0.3,
                       'old_version': r.random() < 0.3}
+    if sc['mode'] == 'roundtrip' and r.random() < 0.3:
+        sc['stale_file'] = r.randint(1, 60)
     if sc['mode'] == 'fault':
         f = streams('faults')
         sc['fault'] = {'on': f.choice(['write', 'read']), 'at': f.randint(0, 400)}
@@ -379,10 +409,10 @@ class Run:
         self.count('mode.' + mode)
         if mode == 'hand':
             data, header = hand_written(sc, v0)
-            fs.files['/hand.csv'] = bytearray(data)
+            fs.files['/simfs-no-such-dir/hand.csv'] = bytearray(data)
             self.steps += 1
             try:
-                w1 = cio.read_csv('/hand.csv')
+                w1 = cio.read_csv('/simfs-no-such-dir/hand.csv')
             except Exception as e:  # noqa
                 return self.V('hand-file-rejected', f'{type(e).__name__}: {e} (bom={sc["hand"]["bom"]}, eol={sc["hand"]["eol"]!r})')
             v1 = view(w1)
@@ -405,16 +435,28 @@ class Run:
                 if f['on'] == 'write':
                     fs.write_fault_at = f['at']
                 self.steps += 1
-                cio.write_csv(w0, '/a.csv')
+                cio.write_csv(w0, '/simfs-no-such-dir/a.csv')
                 fs.write_fault_at = None
                 if f['on'] == 'read':
                     fs.read_fault_at = f['at']
                 self.steps += 1
-                w1 = cio.read_csv('/a.csv')
+                w1 = cio.read_csv('/simfs-no-such-dir/a.csv')
             except OSError as e:
                 self.count('fault.' + ('enospc_surfaced' if e.errno == errno.ENOSPC else 'eio_surfaced'))
                 self.log.add('fault', e.errno)
                 self.end_state = core.hash64(['fault', e.errno])
+                # the fault is over: a retry on the same path (which now holds a torn file) must work
+                fs.write_fault_at = fs.read_fault_at = None
+                try:
+                    self.steps += 2
+                    cio.write_csv(w0, '/simfs-no-such-dir/a.csv')
+                    wr = cio.read_csv('/simfs-no-such-dir/a.csv')
+                except Exception as e2:  # noqa
+                    return self.V('retry-after-fault-raised', f'{type(e2).__name__}: {e2}')
+                d = diff_views(v0, view(wr))
+                if d:
+                    return self.V('retry-after-fault', d)
+                self.count('probe.retry_after_fault_ok')
                 return self
             except Exception as e:  # noqa
                 return self.V('wrong-error-under-fault', f'{type(e).__name__}: {e}')
@@ -428,16 +470,20 @@ class Run:
             self.end_state = core.hash64(view(w1))
             return self
         # fault-free round trip, three generations
+        if sc.get('stale_file'):
+            # the path already holds a longer, unrelated file: write_csv must replace it completely
+            fs.files['/simfs-no-such-dir/a.csv'] = bytearray(('id;name\r\n' + '9;old;;;;;;;;\r\n' * sc['stale_file']).encode())
+            self.count('probe.file_existed_with_longer_content')
         try:
             self.steps += 1
-            cio.write_csv(w0, '/a.csv')
-            a = bytes(fs.files['/a.csv'])
+            cio.write_csv(w0, '/simfs-no-such-dir/a.csv')
+            a = bytes(fs.files['/simfs-no-such-dir/a.csv'])
             self.log.add('write', len(a), core.hash64(a.hex()))
             lay = check_layout(a, v0)
             if lay:
                 return self.V('layout', lay)
             self.steps += 1
-            w1 = cio.read_csv('/a.csv')
+            w1 = cio.read_csv('/simfs-no-such-dir/a.csv')
         except Exception as e:  # noqa
             return self.V('roundtrip-raised', f'{type(e).__name__}: {e}')
         v1 = view(w1)
@@ -446,12 +492,12 @@ class Run:
             return self.V('roundtrip', d)
         try:
             self.steps += 2
-            cio.write_csv(w1, '/b.csv')
-            w2 = cio.read_csv('/b.csv')
-            cio.write_csv(w2, '/c.csv')
+            cio.write_csv(w1, '/simfs-no-such-dir/b.csv')
+            w2 = cio.read_csv('/simfs-no-such-dir/b.csv')
+            cio.write_csv(w2, '/simfs-no-such-dir/c.csv')
         except Exception as e:  # noqa
             return self.V('roundtrip-raised', f'second generation: {type(e).__name__}: {e}')
-        b, c = bytes(fs.files['/b.csv']), bytes(fs.files['/c.csv'])
+        b, c = bytes(fs.files['/simfs-no-such-dir/b.csv']), bytes(fs.files['/simfs-no-such-dir/c.csv'])
         if b != c:
             i = next((i for i in range(min(len(b), len(c))) if b[i] != c[i]), min(len(b), len(c)))
             return self.V('fixpoint', f'2nd and 3rd generation files differ at byte {i}: {b[max(0, i - 20):i + 20]!r} vs {c[max(0, i - 20):i + 20]!r}')
@@ -459,9 +505,9 @@ class Run:
         if d:
             return self.V('roundtrip', 'second generation: ' + d)
         # BOM variant loads with the same meaning
-        fs.files['/bom.csv'] = bytearray(b'\xef\xbb\xbf' + a)
+        fs.files['/simfs-no-such-dir/bom.csv'] = bytearray(b'\xef\xbb\xbf' + a)
         try:
-            wb = cio.read_csv('/bom.csv')
+            wb = cio.read_csv('/simfs-no-such-dir/bom.csv')
         except Exception as e:  # noqa
             return self.V('hand-file-rejected', f'BOM variant: {type(e).__name__}: {e}')
         d = diff_views(v1, view(wb))
